@@ -99,6 +99,7 @@ func expLabelSets(vals []string) []map[string]string {
 // genExposureWorld: NP-only worlds with many shared selectors.
 func genExposureWorld(g *rng.R, allowUnusedNs bool) *world.World {
 	cfg := world.DefaultCfg()
+	cfg.KindTwins, cfg.SharedNames = 0.15, 0.1
 	cfg.NamedEgressIP = 0
 	cfg.MaxWorkloads = 5
 	cfg.MinNetPols, cfg.MaxNetPols = 1, 5
@@ -220,6 +221,36 @@ func runExposure(c *run.Ctx, prop string) {
 	allowUnused := prop == "C06" && c.Idx%2 == 0
 	w := genExposureWorld(g, allowUnused)
 	world.UnifySpellings(w)
+	// the same selector with its matchExpressions written in another order, in a second rule for the same workload and direction with
+	// another port (added after the spellings are unified on purpose: both orders must lead to the same representative peer AND both
+	// rules must be matched against it)
+	if g.P(0.2) && len(w.Workloads) > 0 {
+		x := rng.Pick(g, w.Workloads)
+		k := rng.Pick(g, world.Keys)
+		reqs := [][]world.Req{
+			{{Key: k, Op: "Exists"}, {Key: k, Op: "NotIn", Vals: []string{rng.Pick(g, world.Vals)}}},
+			{{Key: k, Op: "NotIn", Vals: []string{"a"}}, {Key: k, Op: "NotIn", Vals: []string{"b"}}},
+			{{Key: k, Op: "In", Vals: []string{"a", "b"}}, {Key: k, Op: "NotIn", Vals: []string{"b", "c"}}},
+		}[g.Intn(3)]
+		rev := []world.Req{reqs[1], reqs[0]}
+		ingress := g.P(0.5)
+		var nsSel *world.Sel
+		if g.P(0.4) {
+			nsSel = &world.Sel{ML: map[string]string{"zone": "z"}}
+		}
+		ports := []int{8080, 9090}
+		for i, me := range [][]world.Req{reqs, rev} {
+			np := world.NetPol{Ns: x.Ns, Name: fmt.Sprintf("reorder%d", i), PodSel: *world.SelFor(g, x.Labels), HasTypes: true}
+			rule := world.NPRule{Peers: []world.NPPeer{{PodSel: &world.Sel{ME: me}, NsSel: nsSel}}, Ports: []world.NPPort{{Port: ports[i]}}}
+			if ingress {
+				np.Ingress, np.PolicyTypes = []world.NPRule{rule}, []string{"Ingress"}
+			} else {
+				np.Egress, np.PolicyTypes = []world.NPRule{rule}, []string{"Egress"}
+			}
+			w.NetPols = append(w.NetPols, np)
+		}
+		w.AddFeature("reorderedExpressions")
+	}
 	r.Hash = w.Hash()
 	r.Feat(w.Features...)
 	// structural pattern of finding C06(a): a policy in a namespace with neither manifest nor workload, with a podSelector-only rule peer
